@@ -146,6 +146,7 @@ fn main() {
             "eg" => suites::eg::run(&mut ctx),
             "hist" => suites::hist::run(&mut ctx),
             "snap" => suites::snap::run(&mut ctx),
+            "eplant" => suites::eplant::run(&mut ctx),
             "look" => suites::look::run(&mut ctx),
             "rw" => suites::rw::run(&mut ctx),
             "runner" => suites::runner::run(&mut ctx),
